@@ -7,6 +7,9 @@ TOP=$(mktemp -d /tmp/bl_XXXXXX)
 trap 'rm -rf "$TOP"' EXIT
 cd "$SRC" || exit 3
 FILES=$(find tests -name '*_test.py' | sort)
+# BL_ONLY (newline separated test files): run only these; baseline entries of other files are not compared
+if [ -n "${BL_ONLY:-}" ]; then FILES="$BL_ONLY"; fi
+export BL_FILES="$FILES"
 i=0
 for f in $FILES; do
   i=$((i+1)); D="$TOP/c$i"; mkdir -p "$D"
@@ -23,7 +26,12 @@ for x in glob.glob(top + "/r*.xml"):
         name = f"{tc.get('classname')}::{tc.get('name')}"
         bad = any(ch.tag in ("failure", "error", "skipped") for ch in tc)
         (failed if bad else passed).add(name)
+import os
 base = set(json.load(open("/root/.vp/BASELINE.json"))["stable_pass"])
+pref = tuple(f[:-3].replace("/", ".") + "." for f in os.environ.get("BL_FILES", "").split())
+full = len(base)
+base = {b for b in base if b.startswith(pref)}
+print(f"test files run: {len(pref)}; baseline tests in them: {len(base)} of {full}")
 missing = sorted(base - passed)
 print(f"passed={len(passed)} failed={len(failed)} baseline={len(base)} baseline_missing={len(missing)}")
 for m in missing: print("  MISSING", m)
